@@ -103,7 +103,7 @@ pub fn evaluate(p: &dyn Profile, reg: &Reg, plan: Plan, rec: &RunRecord) -> RunO
             f
         }
         Err(_) => {
-            harness_error = Some("a monitor panicked".to_string());
+            harness_error = Some(format!("a monitor panicked: {}", crate::world::last_panic()));
             vec![]
         }
     };
@@ -530,8 +530,10 @@ pub fn sweep(
                                 break;
                             }
                         }
-                        let o = run_one(p, reg, seed, i);
-                        agg.absorb(i, o, keep_hashes, known);
+                        match crate::world::guarded(|| run_one(p, reg, seed, i)) {
+                            Ok(o) => agg.absorb(i, o, keep_hashes, known),
+                            Err(msg) => agg.harness.push((i, format!("the simulator itself panicked: {msg}"))),
+                        }
                         i += workers as u64;
                     }
                     agg
